@@ -3,6 +3,7 @@ package rules
 
 import (
 	"fmt"
+	"go/constant"
 	"go/token"
 	"sort"
 	"strings"
@@ -298,15 +299,34 @@ func (r *R) whoMayCall(rule string, target *ssa.Function, allow []string) {
 // pairedLoopUpdate: phis named a and b are loop-carried variables of the same loop; on every acyclic path
 // through one iteration, if a's value changes then b's value changes too (the two cursors move together).
 func (r *R) pairedLoopUpdate(rule string, fn *ssa.Function, a, b, why string) {
+	r.pairedLoopUpdateSel(rule, fn, a, b, func(p *ssa.Phi) bool { return p.Comment == a }, func(p *ssa.Phi) bool { return p.Comment == b }, why)
+}
+
+// isLoopHeader: b has a predecessor it dominates (a back edge).
+func isLoopHeader(b *ssa.BasicBlock) bool {
+	for _, p := range b.Preds {
+		if b.Dominates(p) {
+			return true
+		}
+	}
+	return false
+}
+
+// pairedLoopUpdateSel is pairedLoopUpdate with the two loop-carried variables selected semantically (by what
+// flows into them) instead of by their source names; a and b are only labels for the report.
+func (r *R) pairedLoopUpdateSel(rule string, fn *ssa.Function, a, b string, selA, selB func(*ssa.Phi) bool, why string) {
 	construct := fmt.Sprintf("%s: loop updates %s ⇒ updates %s", ssax.FuncName(fn), a, b)
 	var pa, pb *ssa.Phi
 	for _, blk := range fn.Blocks {
+		if !isLoopHeader(blk) {
+			continue
+		}
 		for _, in := range blk.Instrs {
 			if p, ok := in.(*ssa.Phi); ok {
-				if p.Comment == a && pa == nil {
+				if pa == nil && selA(p) {
 					pa = p
 				}
-				if p.Comment == b && pb == nil {
+				if pb == nil && selB(p) && p != pa {
 					pb = p
 				}
 			}
@@ -670,4 +690,279 @@ func iterationPaths(h *ssa.BasicBlock, stop map[ssa.Value]bool, visit func(path 
 	}
 	walk([]*ssa.BasicBlock{h})
 	return n
+}
+
+// errorNeverSwallowed: for the call site (whose last result is an error), in the world "that error is
+// non-nil" no success exit of fn — and no further loop iteration — is reachable. The error value is followed
+// through phis along each explored path (state = the set of SSA values known to hold it), so re-assignment
+// into an outer `err` variable is understood while a shadowed copy that nobody looks at is not.
+func (r *R) errorNeverSwallowed(rule string, fn *ssa.Function, site *ssa.Call, why string) {
+	ord := 0
+	for _, in := range ssax.Find(fn, func(in ssa.Instruction) bool {
+		c, ok := in.(*ssa.Call)
+		return ok && ssax.CalleeName(c.Common()) == ssax.CalleeName(site.Common())
+	}) {
+		ord++
+		if in == ssa.Instruction(site) {
+			break
+		}
+	}
+	construct := fmt.Sprintf("%s: error of %s (call #%d) is never swallowed", ssax.FuncName(fn), ssax.CalleeName(site.Common()), ord)
+	var e ssa.Value
+	n := site.Common().Signature().Results().Len()
+	if n == 1 {
+		e = site
+	} else if refs := site.Referrers(); refs != nil {
+		for _, ref := range *refs {
+			if ex, ok := ref.(*ssa.Extract); ok && ex.Index == n-1 {
+				e = ex
+			}
+		}
+	}
+	if e == nil {
+		r.Violate(rule, construct, r.pos(site), "the error result is discarded: "+why)
+		return
+	}
+	okExit := ssax.SuccessExit(fn)
+	h := innermostLoopHeader(site.Block())
+	type state struct {
+		b *ssa.BasicBlock
+		k string
+	}
+	seen := map[state]bool{}
+	key := func(H map[ssa.Value]bool) string {
+		var ks []string
+		for v := range H {
+			ks = append(ks, v.Name())
+		}
+		sort.Strings(ks)
+		return strings.Join(ks, ",")
+	}
+	bad, badPath := ssa.Instruction(nil), []int(nil)
+	var walk func(b *ssa.BasicBlock, from int, H map[ssa.Value]bool, path []int)
+	walk = func(b *ssa.BasicBlock, from int, H map[ssa.Value]bool, path []int) {
+		if bad != nil {
+			return
+		}
+		for i := from; i < len(b.Instrs); i++ {
+			in := b.Instrs[i]
+			if ssax.IsNoReturn(in) {
+				return
+			}
+			if ret, ok := in.(*ssa.Return); ok {
+				if okExit(ret) {
+					// a success return that hands the error itself out is not a success
+					for _, res := range ret.Results {
+						if H[res] {
+							return
+						}
+					}
+					bad, badPath = in, path
+				}
+				return
+			}
+		}
+		iff, isIf := b.Instrs[len(b.Instrs)-1].(*ssa.If)
+		for si, s := range b.Succs {
+			if isIf {
+				if bo, ok := iff.Cond.(*ssa.BinOp); ok && (bo.Op == token.EQL || bo.Op == token.NEQ) {
+					var held bool
+					if H[bo.X] && ssax.IsNilConst(bo.Y) || H[bo.Y] && ssax.IsNilConst(bo.X) {
+						held = true
+					}
+					if held {
+						nonNilEdge := 0
+						if bo.Op == token.EQL {
+							nonNilEdge = 1
+						}
+						if si != nonNilEdge {
+							continue
+						}
+					}
+				}
+			}
+			if h != nil && s == h {
+				// next iteration with the error still unreported
+				bad, badPath = s.Instrs[0], path
+				return
+			}
+			H2 := map[ssa.Value]bool{}
+			for v := range H {
+				H2[v] = true
+			}
+			for _, in := range s.Instrs {
+				p, ok := in.(*ssa.Phi)
+				if !ok {
+					break
+				}
+				for j, q := range s.Preds {
+					if q == b {
+						if H[p.Edges[j]] {
+							H2[p] = true
+						} else {
+							delete(H2, p)
+						}
+					}
+				}
+			}
+			st := state{s, key(H2)}
+			if seen[st] {
+				continue
+			}
+			seen[st] = true
+			walk(s, 0, H2, append(append([]int(nil), path...), s.Index))
+		}
+	}
+	idx := 0
+	for i, in := range site.Block().Instrs {
+		if in == ssa.Instruction(site) {
+			idx = i + 1
+		}
+	}
+	walk(site.Block(), idx, map[ssa.Value]bool{e: true}, []int{site.Block().Index})
+	if bad != nil {
+		r.Violate(rule, construct, r.pos(site), fmt.Sprintf("with a non-nil error from this call, control reaches %s (blocks %s) as if it had succeeded: %s", r.pos(bad), blocksStr(badPath), why))
+		return
+	}
+	r.Hold(rule, construct, r.pos(site), "")
+}
+
+// worldSearch explores the paths of fn from `from` (nil = entry) under a hypothetical world given by atom —
+// atom(v) returns (truth, true) for the comparisons the world decides — and reports the first instruction
+// matching target that is reachable. Unlike an EdgeFilter it carries a value environment along each path:
+// boolean phis take the value of the edge they were entered through and `!x` is evaluated, so a condition
+// that was computed earlier (isArr := a == K1 || a == K2 … if cond && !isArr) is still decided.
+func worldSearch(fn *ssa.Function, from ssa.Instruction, target ssax.Matcher, atom func(ssa.Value) (bool, bool)) (ssa.Instruction, []int, bool) {
+	type state struct {
+		b *ssa.BasicBlock
+		k string
+	}
+	var eval func(v ssa.Value, env map[ssa.Value]bool, d int) (bool, bool)
+	eval = func(v ssa.Value, env map[ssa.Value]bool, d int) (bool, bool) {
+		if d > 6 || v == nil {
+			return false, false
+		}
+		if t, ok := env[v]; ok {
+			return t, true
+		}
+		if k, ok := v.(*ssa.Const); ok && k.Value != nil && k.Value.Kind() == constant.Bool {
+			return constant.BoolVal(k.Value), true
+		}
+		if t, ok := atom(v); ok {
+			return t, true
+		}
+		if u, ok := v.(*ssa.UnOp); ok && u.Op == token.NOT {
+			t, ok := eval(u.X, env, d+1)
+			return !t, ok
+		}
+		return false, false
+	}
+	key := func(env map[ssa.Value]bool) string {
+		var ks []string
+		for v, t := range env {
+			ks = append(ks, fmt.Sprintf("%s=%v", v.Name(), t))
+		}
+		sort.Strings(ks)
+		return strings.Join(ks, ",")
+	}
+	seen := map[state]bool{}
+	var hit ssa.Instruction
+	var hitPath []int
+	var walk func(b *ssa.BasicBlock, start int, env map[ssa.Value]bool, path []int)
+	walk = func(b *ssa.BasicBlock, start int, env map[ssa.Value]bool, path []int) {
+		if hit != nil {
+			return
+		}
+		for i := start; i < len(b.Instrs); i++ {
+			in := b.Instrs[i]
+			if target(in) {
+				hit, hitPath = in, path
+				return
+			}
+			if ssax.IsNoReturn(in) || ssax.IsReturn(in) {
+				return
+			}
+		}
+		iff, isIf := b.Instrs[len(b.Instrs)-1].(*ssa.If)
+		for si, s := range b.Succs {
+			if isIf {
+				if t, ok := eval(iff.Cond, env, 0); ok && (t && si != 0 || !t && si != 1) {
+					continue
+				}
+			}
+			env2 := map[ssa.Value]bool{}
+			for v, t := range env {
+				env2[v] = t
+			}
+			for _, in := range s.Instrs {
+				p, ok := in.(*ssa.Phi)
+				if !ok {
+					break
+				}
+				for j, q := range s.Preds {
+					if q == b {
+						if t, ok := eval(p.Edges[j], env, 0); ok {
+							env2[p] = t
+						} else {
+							delete(env2, p)
+						}
+					}
+				}
+			}
+			st := state{s, key(env2)}
+			if seen[st] {
+				continue
+			}
+			seen[st] = true
+			walk(s, 0, env2, append(append([]int(nil), path...), s.Index))
+		}
+	}
+	if fn == nil || len(fn.Blocks) == 0 {
+		return nil, nil, false
+	}
+	b, idx := fn.Blocks[0], 0
+	if from != nil {
+		b = from.Block()
+		for i, in := range b.Instrs {
+			if in == from {
+				idx = i + 1
+			}
+		}
+	}
+	walk(b, idx, map[ssa.Value]bool{}, []int{b.Index})
+	return hit, hitPath, hit != nil
+}
+
+// relAtom builds a worldSearch atom for "the value selected by isX equals (rel 0) / is less than (-1) /
+// greater than (+1) the value selected by isY".
+func relAtom(isX, isY func(ssa.Value) bool, rel int) func(ssa.Value) (bool, bool) {
+	return func(v ssa.Value) (bool, bool) {
+		bo, ok := v.(*ssa.BinOp)
+		if !ok {
+			return false, false
+		}
+		r := rel
+		switch {
+		case isX(bo.X) && isY(bo.Y):
+		case isX(bo.Y) && isY(bo.X):
+			r = -rel
+		default:
+			return false, false
+		}
+		switch bo.Op {
+		case token.EQL:
+			return r == 0, true
+		case token.NEQ:
+			return r != 0, true
+		case token.LSS:
+			return r < 0, true
+		case token.LEQ:
+			return r <= 0, true
+		case token.GTR:
+			return r > 0, true
+		case token.GEQ:
+			return r >= 0, true
+		}
+		return false, false
+	}
 }
